@@ -95,7 +95,17 @@ class Source:
             self.idx = np.arange(n)
         self.ds = ds
         self.ev = ev
+        # the metadata as they were before any export (an export must not
+        # change its source, and later exports are judged against these)
+        self.cfg0 = self.snapshot()
         self.has_logs = kind != "dict" and kind != "child-dict"
+
+    def snapshot(self):
+        import copy
+        return {sec: copy.deepcopy(dict(self.ds.config[sec]))
+                for sec in ("experiment", "imaging", "setup", "fluorescence",
+                            "user", "online_contour", "online_filter")
+                if sec in self.ds.config}
 
     @staticmethod
     def _dict(ev):
@@ -185,11 +195,20 @@ def compare_export(out_path, src, sel_idx, feats, filtered, case, tags):
                         gen.arrays_equal(np.ravel(h5["tables"][key][c]), t[c])
                         for c in t.dtype.names):
                     bad("wrong-tables", key)
+    now = src.snapshot()
+    if repr(now) != repr(src.cfg0):
+        diff = [f"{sec}:{k}" for sec in src.cfg0 for k in src.cfg0[sec]
+                if repr(now.get(sec, {}).get(k)) != repr(src.cfg0[sec][k])]
+        bad("source-modified", f"the export changed the metadata of its "
+            f"source dataset: {diff}")
+        for sec in src.cfg0:        # restore, so that one report suffices
+            for k, v in src.cfg0[sec].items():
+                src.ds.config[sec][k] = v
     if nsel:
         with dclab.new_dataset(out_path) as ds:
             if len(ds) != nsel:
                 bad("wrong-length", f"len={len(ds)} != {nsel}")
-            ref = src.ds.config
+            ref = src.cfg0
             for sec in ("experiment", "imaging", "setup", "fluorescence",
                         "user"):
                 for k, v in dict(ref[sec]).items() if sec in ref else []:
@@ -430,7 +449,7 @@ def _short_case(args):
     lmin = min(short.values())
 
     class S:
-        pass
+        snapshot = Source.snapshot
     src = S()
     src.ev, src.idx, src.has_logs = ev, np.arange(n), False
     src.logs, src.tables = {}, {}
@@ -440,6 +459,7 @@ def _short_case(args):
     try:
         with dclab.new_dataset(p) as ds:
             src.ds = ds
+            src.cfg0 = src.snapshot()
             for mi, m in enumerate(masks):
                 for filtered in (True, False):
                     ds.filter.manual[:] = m
